@@ -57,6 +57,10 @@ pub fn client_args(rng: &mut Rng, port: u16, proto: P, key: Option<&[u8]>, n: u3
         1 => a.push("-v".into()),
         _ => {}
     }
+    if rng.chance(1, 6) {
+        // a text dump of both messages on stderr: commentary only
+        a.push("-d".into());
+    }
     a
 }
 
